@@ -39,6 +39,8 @@ LEVEL_TEXT = (
     "short-lived raw trees whose operation objects are kept while the trees are dropped; (f) multi-engine bases with a "
     "final operation under every preferred-engine option: whatever lands in the SQL engine is a conformed Select.  "
     "Programs are sampled (<= 8 / 12 operations); plus the exhaustive SELECT-rule matrix."
+    "  Results of optioned requests that contain Selects and transfers are processed (Processor.process): the SELECT "
+    "markers of the returned tree must be coherent and conform must return it unchanged."
 )
 LEVEL_NOTE = "trusts: ev_bag labels; raw trees are well-formed by construction (columns from applied_columns, resolved join columns); P4, P8"
 RULE = (
